@@ -296,10 +296,12 @@ class Model:
         return tot
 
     # -- expectations -------------------------------------------------------------------------------------
-    def expect_atoms(self, poly):
-        """Integrate out all atoms (latest created first)."""
+    def expect_atoms(self, poly, only_iter=None):
+        """Integrate out all atoms (latest created first); with only_iter=n only those drawn in
+        loop iteration n (0-based), leaving earlier atoms as symbols."""
         while True:
-            present = [v for v in poly.variables() if v in self.atoms]
+            present = [v for v in poly.variables() if v in self.atoms
+                       and (only_iter is None or self.atoms[v].order[0] == only_iter)]
             if not present:
                 return poly
             a = max(present, key=lambda v: self.atoms[v].order)
@@ -319,7 +321,7 @@ class Model:
         for st, pr in d.values():
             if weight is not None and not weight(st):
                 continue
-            tot = tot + pr * self.expect_atoms(self.ev(mono, st))
+            tot = tot + self.expect_atoms(pr * self.ev(mono, st))
         return tot
 
     def law(self, mono, n):
